@@ -74,6 +74,8 @@ Tx(id, t) == /\ id \in DOMAIN pend
              /\ lastTx' = t /\ txd' = txd \cup {id}
              /\ pend' = [i \in DOMAIN pend \ {id} |-> pend[i]]
              /\ cons' = [i \in DOMAIN cons \cup {id} |-> IF i = id THEN 0 ELSE cons[i]]
+(* the caller gave up (its task was cancelled) before its frame was written: the frame is never sent, the others go on as if it had not asked *)
+Cancelled(id) == /\ id \in DOMAIN pend /\ pend' = [i \in DOMAIN pend \ {id} |-> pend[i]] /\ UNCHANGED <<fc, lastTx, txd, cons>>
 Con(id) == id \in txd /\ cons' = [cons EXCEPT ![id] = @ + 1] /\ UNCHANGED <<fc, lastTx, pend, txd>>
 Ret(id) == id \in txd /\ cons[id] = 1 /\ UNCHANGED vars            \* exactly one local confirmation per routed send
 \* ---- C27 "sending resumes": the longest waiting sender transmits at the first permitted instant (+ SLACK)
